@@ -1,12 +1,13 @@
 package trie
 
 import (
-	"sort"
-	"strings"
 	"fmt"
 	"math/bits"
+	"sort"
+	"strings"
 
 	proto "github.com/golang/protobuf/proto"
+	"github.com/openacid/slim/encode"
 	slim "github.com/openacid/slim/trie"
 
 	"slimverif/harness/gen"
@@ -116,8 +117,52 @@ func build(c *lp.Ctx, cs *Case) bool {
 	return true
 }
 
+// bigDirect: key counts beyond what the script protocol carries (2^18 + 5 and, thorough, 2^20 + 3 keys with
+// distinct i32 values), on the implementation only: every key of the first and last 40 and a stride of the rest is
+// found with its own value.  A code path that exists only for big inputs (parallel encoding, a second-level index)
+// is otherwise never run by any check.
+func bigDirect(c *lp.Ctx) {
+	for _, n := range []int{1<<18 + 5, 1<<20 + 3}[:c.Pick(1, 2)] {
+		keys := make([]string, n)
+		vals := make([]int32, n)
+		for i := range keys {
+			keys[i] = fmt.Sprintf("key-%07d", 3*i)
+			vals[i] = int32(i)
+		}
+		bad := func() (bad string) {
+			defer func() {
+				if r := recover(); r != nil {
+					bad = fmt.Sprintf("panic: %v", r)
+				}
+			}()
+			st, err := slim.NewSlimTrie(encode.I32{}, keys, vals)
+			if err != nil {
+				return "NewSlimTrie: " + err.Error()
+			}
+			for i := 0; i < n; i++ {
+				if i >= 40 && i < n-40 && i%997 != 0 {
+					continue
+				}
+				v, ok := st.Get(keys[i])
+				if !ok || v == nil || v.(int32) != vals[i] {
+					return fmt.Sprintf("Get(%q) = %v, %v; want %d, true", keys[i], v, ok, vals[i])
+				}
+			}
+			return ""
+		}()
+		c.Case(fmt.Sprintf("big-direct|%d", n), true)
+		c.Hit(fmt.Sprintf("big-direct:n=%d", n))
+		if bad != "" {
+			c.Violate(lp.Violation{What: "Get on retained key (big key set, implementation only)",
+				Script:   []string{fmt.Sprintf("NewSlimTrie(I32, key-%%07d of 3i for i < %d, values i); Get on the first and last 40 keys and every 997th", n)},
+				Expected: "found with its own value", Got: bad})
+		}
+	}
+}
+
 // genC01: Get / GetID on every retained key, fresh and reloaded.
 func genC01(c *lp.Ctx) {
+	bigDirect(c)
 	n := c.Pick(400, 1200)
 	size := c.Pick(250, 1500)
 	for it := 0; it < n; it++ {
